@@ -11,8 +11,9 @@ Open Scope Z_scope.
 
 (* the generated tables (all_image_classes, Opener/ImageOpener.compress_ext_map) are well formed *)
 Theorem C12_tables_wf :
-  wf_table all_classes = true /\ forallb dotted opener_keys = true /\ forallb dotted image_opener_keys = true.
-Proof. exact (conj all_classes_wf opener_keys_wf). Qed.
+  wf_table all_classes = true /\ (forallb dotted opener_keys = true /\ forallb dotted image_opener_keys = true)
+  /\ forallb dotted save_suffixes = true.
+Proof. exact (conj all_classes_wf (conj opener_keys_wf save_suffixes_wf)). Qed.
 Print Assumptions C12_tables_wf.
 
 (* the file map entry of the member whose extension the user spelled is exactly the name given *)
@@ -144,6 +145,26 @@ Proof.
   - intros. eapply routes_named; eauto.
 Qed.
 Print Assumptions C12_routes_equal.
+
+(* nib.save's implicit class conversion looks at the extension through lower() only: two
+   spellings of the same name that differ in the case of extension and suffix are written by the
+   same class (given the image's own class treats them alike, which C12_named_member_written
+   gives for the names it accepts); and a NIfTI single-file image saved to a pair member goes to
+   the pair class of the SAME NIfTI version whatever the case *)
+Theorem C12_save_case_independent : forall ks sufs k root e1 e2 s1 s2 conv,
+  forallb dotted sufs = true -> dottedi e1 = true -> lower e2 = lower e1 ->
+  save_suffix_ok sufs e1 s1 -> save_suffix_ok sufs e2 s2 ->
+  is_ok (filespec_to_file_map k (root ++ e1 ++ s1)) = is_ok (filespec_to_file_map k (root ++ e2 ++ s2)) ->
+  save_class ks sufs k (root ++ e1 ++ s1) conv = save_class ks sufs k (root ++ e2 ++ s2) conv.
+Proof. exact save_case_independent. Qed.
+Print Assumptions C12_save_case_independent.
+
+Theorem C12_save_ladder_nifti : forall ks k lext conv,
+  (str_eqb lext X_IMG || str_eqb lext X_HDR) = true ->
+  (kname k = N1I -> save_ladder ks k lext conv = find_class ks N1P)
+  /\ (kname k = N2I -> save_ladder ks k lext conv = find_class ks N2P).
+Proof. exact save_ladder_nifti. Qed.
+Print Assumptions C12_save_ladder_nifti.
 
 (* non-vacuity: NIfTI-1 pair, root with a directory, a space and a dot, Mixed-case header
    extension, Mixed-case .gz: hypotheses hold, the header is the name given, the image follows *)
